@@ -309,7 +309,7 @@ CHECKS = {
 def _race_units():
     """C18: the race detector as oracle over reduced budgets of the other checks' generated executions."""
     want = {"C01": (6, 20), "C02": (5, 16), "C03": (5, 16), "C04": (4, 14), "C05": (5, 16), "C06": (5, 16), "C09": (200, 4000),
-            "C10": (40, 200), "C11": (300, 6000), "C12": (200, 4000), "C13": (4, 14), "C15": (300, 6000), "C16": (300, 6000), "C17": (12, 60), "C19": (6, 20)}
+            "C10": (40, 200), "C11": (300, 6000), "C12": (200, 4000), "C13": (4, 14), "C15": (300, 6000), "C16": (300, 6000), "C17": (30, 120), "C19": (6, 20)}
     units = []
     for pid, (q0, th0) in want.items():
         if pid not in CHECKS:
